@@ -508,7 +508,7 @@ func RunPend(f *ssa.Function, r PendRule) []PathViolation {
 		if r.Disch != nil && r.Disch(ins) {
 			st.pending = map[ssa.Instruction]bool{}
 		}
-		if r.Trig(ins) {
+		if r.Trig != nil && r.Trig(ins) {
 			st.pending[ins] = true
 		}
 	}
